@@ -122,3 +122,14 @@ Section RT.
       rewrite lenN_app. do 2 f_equal. lia.
   Qed.
 End RT.
+
+Lemma stops_beu_nil_gen A k (f : N -> P A) o : (0 < k)%nat -> stops (Bind (BeU k) f) (mkS o []).
+Proof.
+  intros Hk. unfold stops. rewrite run_bind, run_beu. unfold slen; cbn [bytes lenN].
+  destruct (N.leb_spec (N.of_nat k) 0); [lia | exact I].
+Qed.
+Lemma stops_beu_nil_plain k o : (0 < k)%nat -> stops (BeU k) (mkS o []).
+Proof.
+  intros Hk. unfold stops. rewrite run_beu. unfold slen; cbn [bytes lenN].
+  destruct (N.leb_spec (N.of_nat k) 0); [lia | exact I].
+Qed.
